@@ -28,6 +28,7 @@ import OptunaVerif.Model.Basic
                               try:
                                   self.release()                  tkRename ; tkUnlink
                                   sleep_secs = 0.001
+                                  last_update_monotonic_time = time.monotonic()   tkRestart  (repo d602c3c)
                               except RuntimeError:
                                   continue                        (-> create, no sleep)
                       time.sleep(sleep_secs)                      sleep
@@ -78,6 +79,7 @@ inductive PC where
   | check       -- next: `time.monotonic() - last > grace`
   | tkRename    -- stale-lock takeover; next: `os.rename(lock, unique)`
   | tkUnlink    -- next: `os.unlink(unique)`
+  | tkRestart   -- the stale lock is gone; next: `last := time.monotonic()` (the taker restarts its timer)
   | sleep       -- next: `time.sleep`
   | crit        -- `acquire` returned: critical section; next: the write to the journal
   | relRename   -- `release()` called by the holder; next: `os.rename(lock, unique)`
@@ -193,7 +195,8 @@ def stepW (cfg : Cfg) (sh : Shared) (w : Nat) (wk : Worker) : Shared Ã— Worker Ã
     | some g => (sh, { wk with pc := if sh.now > wk.last + g then .tkRename else .sleep }, .monotonic sh.now)
     | none => (sh, { wk with pc := .sleep }, .monotonic sh.now)   -- unreachable (`check_unreachable_of_no_grace`)
   | .tkRename => doRename sh w wk .tkUnlink { wk with pc := .create }
-  | .tkUnlink => doUnlink sh w wk .sleep { wk with pc := .create }
+  | .tkUnlink => doUnlink sh w wk .tkRestart { wk with pc := .create }
+  | .tkRestart => (sh, { wk with pc := .sleep, last := sh.now }, .monotonic sh.now)
   | .sleep => (sh, { wk with pc := .create }, .slept)
   | .crit => ({ sh with tgt := sh.now }, { wk with pc := .relRename }, .touched)
   | .relRename => doRename sh w wk .relUnlink { wk with pc := .idle, failed := wk.failed + 1 }
@@ -295,37 +298,51 @@ structure Scenario where
 def f13Open : Scenario :=
   { cfg := { kind := .openExcl, grace := some 2 }, n := 3,
     evs := stepsOf 0 3 ++ [.crash 0] ++ stepsOf 1 6 ++ stepsOf 2 6 ++ ticks 3 ++ stepsOf 1 3 ++ stepsOf 2 3 ++
-           stepsOf 1 5 ++ stepsOf 2 5 }
+           stepsOf 1 6 ++ stepsOf 2 6 }
 
 /-- F13, symlink lock (same race) -/
 def f13Symlink : Scenario :=
   { cfg := { kind := .symlink, grace := some 2 }, n := 3,
     evs := stepsOf 0 2 ++ [.crash 0] ++ stepsOf 1 6 ++ stepsOf 2 6 ++ ticks 3 ++ stepsOf 1 3 ++ stepsOf 2 3 ++
-           stepsOf 1 4 ++ stepsOf 2 4 }
+           stepsOf 1 5 ++ stepsOf 2 5 }
 
-/-- symlink lock, ONE waiter past the grace period: `os.stat` follows the link, so the "lock changed
-hands" test looks at the journal's mtime.  Waiter 1 breaks the dead holder's lock; newcomer 2 creates
-the lock while 1 sleeps; 1 still sees the old journal mtime, its timer is still expired, and it breaks
-the lock of live holder 2. -/
-def symlinkStale : Scenario :=
+/-- F13 on the symlink lock needs no overlap of the two takeovers: `os.stat` follows the link, so the
+"lock changed hands" test looks at the journal's mtime.  Waiters 1 and 2 have both watched the dead
+holder's lock for longer than the grace period; 1 takes it over *completely* and enters; 2 then polls,
+sees the unchanged journal mtime, its own timer is still expired, and breaks 1's live lock. -/
+def f13SymlinkSequential : Scenario :=
   { cfg := { kind := .symlink, grace := some 2 }, n := 3,
-    evs := stepsOf 0 2 ++ [.crash 0] ++ stepsOf 1 6 ++ ticks 3 ++ stepsOf 1 5 ++ stepsOf 2 2 ++ stepsOf 1 8 }
+    evs := stepsOf 0 2 ++ [.crash 0] ++ stepsOf 1 6 ++ stepsOf 2 6 ++ ticks 3 ++ stepsOf 1 8 ++ stepsOf 2 8 }
+
+/-- the schedule that gave two holders before repo commit d602c3c (ONE waiter past the grace period,
+symlink lock): waiter 1 breaks the dead holder's lock; newcomer 2 creates the lock while 1 sleeps; 1 still
+sees the old journal mtime â€” but it has restarted its timer after the takeover, so it goes on polling. -/
+def symlinkAfterTakeover : Scenario :=
+  { cfg := { kind := .symlink, grace := some 2 }, n := 3,
+    evs := stepsOf 0 2 ++ [.crash 0] ++ stepsOf 1 6 ++ ticks 3 ++ stepsOf 1 6 ++ stepsOf 2 2 ++ stepsOf 1 4 }
+
+/-- symlink lock, no crash, every holder punctual: holder 0 has written before waiter 1 samples the journal's
+mtime; 0 releases, 2 acquires between two polls of 1 and has not written yet; 1 has seen the lock held at
+each of its polls and one unchanged journal mtime for longer than the grace period, and breaks 2's lock. -/
+def symlinkHandover : Scenario :=
+  { cfg := { kind := .symlink, grace := some 2 }, n := 3,
+    evs := stepsOf 0 3 ++ stepsOf 1 5 ++ ticks 1 ++ stepsOf 0 2 ++ stepsOf 2 2 ++ ticks 2 ++ stepsOf 1 9 }
 
 /-- no crash at all: waiter 1 is suspended for longer than the grace period between reading the clock
 and comparing it; the lock it had looked at is long released, and its `rename` removes the fresh lock of
 live holder 0. -/
 def stalledWaiter : Scenario :=
   { cfg := { kind := .openExcl, grace := some 2 }, n := 2,
-    evs := stepsOf 0 3 ++ stepsOf 1 4 ++ stepsOf 0 3 ++ ticks 3 ++ stepsOf 1 1 ++ stepsOf 0 3 ++ stepsOf 1 5 }
+    evs := stepsOf 0 3 ++ stepsOf 1 4 ++ stepsOf 0 3 ++ ticks 3 ++ stepsOf 1 1 ++ stepsOf 0 3 ++ stepsOf 1 6 }
 
 /-- the intended use of the grace period: the holder dies, a single waiter takes the lock over -/
 def soloTakeoverOpen : Scenario :=
   { cfg := { kind := .openExcl, grace := some 2 }, n := 2,
-    evs := stepsOf 0 3 ++ [.crash 0] ++ stepsOf 1 6 ++ ticks 3 ++ stepsOf 1 8 }
+    evs := stepsOf 0 3 ++ [.crash 0] ++ stepsOf 1 6 ++ ticks 3 ++ stepsOf 1 9 }
 
 def soloTakeoverSymlink : Scenario :=
   { cfg := { kind := .symlink, grace := some 2 }, n := 2,
-    evs := stepsOf 0 2 ++ [.crash 0] ++ stepsOf 1 6 ++ ticks 3 ++ stepsOf 1 7 }
+    evs := stepsOf 0 2 ++ [.crash 0] ++ stepsOf 1 6 ++ ticks 3 ++ stepsOf 1 8 }
 
 def Scenario.final (s : Scenario) : St := run s.cfg (init s.n) s.evs
 def Scenario.safe (s : Scenario) : Bool := safeSched s.cfg (init s.n) s.evs
